@@ -27,7 +27,12 @@ def make_factor(rng, idx, is_interval, calls, pname):
     b = rng.choice([0.0, 0.01, 0.1, 0.5, 1.0])
     m = rng.choice([2, 3, 5, 7])
     if is_interval:
-        table = [rng.choice([1, 1, 1.5, 2, 2.5, 3, 0.5, 0.75]) for _ in range(m)]
+        if rng.random() < 0.3:
+            # decimal factors: interval * factor often lands a hair below an integer in binary (100 * 0.29 = 28.999...96):
+            # the documented rule is the truncation of exactly that float product
+            table = [rng.choice([0.29, 0.57, 1.15, 0.1, 0.7, 1.1, 0.3, 0.9, 1.01, 0.99, 0.07]) for _ in range(m)]
+        else:
+            table = [rng.choice([1, 1, 1.5, 2, 2.5, 3, 0.5, 0.75]) for _ in range(m)]
 
         def f(k):
             calls.append((pname, k))
@@ -47,7 +52,7 @@ def run_sched_case(rng, res, idx, maxlen):
     from kfac.scheduler import LambdaParamScheduler
 
     subset = [p for b, p in enumerate(PARAMS) if (idx >> b) & 1]
-    init = dict(factor_update_steps=rng.choice([1, 2, 3, 10]), inv_update_steps=rng.choice([1, 2, 4, 10, 100]),
+    init = dict(factor_update_steps=rng.choice([1, 2, 3, 10, 100, 200]), inv_update_steps=rng.choice([1, 2, 4, 10, 100, 1000]),
                 damping=rng.choice([0.001, 0.003, 0.1]), factor_decay=rng.choice([0.95, 0.5, 1.0]),
                 kl_clip=rng.choice([0.001, 1.0]), lr=rng.choice([0.1, 0.0, 1e-3]))
     use_real = rng.random() < 0.5
